@@ -73,7 +73,7 @@ Next == EndDb \/ ReadHeader \/ CheckSizes \/ ReadBody
 
 (* ------------------------------------------------------------------------------------------ *)
 (* Well-formed language of C07 (decode must succeed, and re-encoding reproduces the input)     *)
-StrictList(l) == /\ l.type \in Strict /\ l.hdrsize = 0 /\ l.n >= 1 /\ l.sigsize >= 17
+StrictList(l) == /\ l.type \in Strict /\ l.hdrsize = 0 /\ l.n >= 0 /\ l.sigsize >= 17      \* a list may hold zero signatures: its size fields still round-trip
                  /\ l.listsize = Hdr + l.n * l.sigsize /\ l.body = l.n * l.sigsize
                  /\ (l.type = "sha256" => l.sigsize = 48)
                  /\ (l.type = "extern" => l.sigsize = 17)
